@@ -1,0 +1,162 @@
+//go:build verif
+
+package cmd
+
+import (
+	"context"
+	"fmt"
+	"log/slog"
+	"os/signal"
+
+	"github.com/AdguardTeam/AdGuardDNS/internal/agd"
+	"github.com/AdguardTeam/AdGuardDNS/internal/billstat"
+	"github.com/AdguardTeam/AdGuardDNS/internal/dnscheck"
+	"github.com/AdguardTeam/AdGuardDNS/internal/dnsserver/ratelimit"
+	"github.com/AdguardTeam/AdGuardDNS/internal/dnssvc"
+	"github.com/AdguardTeam/AdGuardDNS/internal/errcoll"
+	"github.com/AdguardTeam/AdGuardDNS/internal/profiledb"
+	"github.com/AdguardTeam/AdGuardDNS/internal/rulestat"
+	"github.com/AdguardTeam/golibs/netutil"
+	"github.com/prometheus/client_golang/prometheus"
+	"gopkg.in/yaml.v2"
+)
+
+// Verification hooks for property C15: the production wiring of the query log
+// and of the server groups.  [VerifC15Build] reads the process environment and
+// a complete configuration file the way [Main] does, validates both and runs
+// the unchanged builder methods up to and including [builder.initDNS], so that
+// the query log ([builder.queryLog]: query_log.file.enabled, QUERYLOG_PATH),
+// the server groups (profiles_enabled, device_id_wildcards, linked_ip_enabled,
+// protocol), the global access settings, the cache, the GeoIP files, the
+// filter storage and the upstream are the ones the program would use.  Only
+// the entities that talk to the backend are given by the harness.
+
+// VerifC15Deps are the backend-facing entities.
+type VerifC15Deps struct {
+	// ProfileDB stands for the result of [builder.initProfileDB].
+	ProfileDB profiledb.Interface
+
+	// BillStat stands for the result of [builder.initBillStat].
+	BillStat billstat.Recorder
+
+	// RuleStat stands for the result of [builder.initRuleStat].
+	RuleStat rulestat.Interface
+
+	// DNSCheck stands for the result of [builder.initDNSCheck].
+	DNSCheck dnscheck.Interface
+}
+
+// VerifC15Wired is what the builder has built.
+type VerifC15Wired struct {
+	// Svc is the DNS service; [dnssvc.Service.Handle] serves one request
+	// with the handler of a server.
+	Svc *dnssvc.Service
+
+	// Groups are the converted server groups.
+	Groups []*agd.ServerGroup
+
+	// ProfilesEnabled is the builder's summary of the server groups.
+	ProfilesEnabled bool
+}
+
+// VerifC15Build builds the DNS service.  ns is the metrics namespace; a
+// private registry is used and also installed as the default one.
+func VerifC15Build(
+	ctx context.Context,
+	confYAML []byte,
+	deps *VerifC15Deps,
+	l *slog.Logger,
+	errColl errcoll.Interface,
+	ns string,
+) (w *VerifC15Wired, err error) {
+	envs, err := parseEnvironment()
+	if err != nil {
+		return nil, fmt.Errorf("environment: %w", err)
+	}
+
+	err = envs.validate()
+	if err != nil {
+		return nil, fmt.Errorf("environment: %w", err)
+	}
+
+	c := &configuration{}
+	err = yaml.Unmarshal(confYAML, c)
+	if err != nil {
+		return nil, fmt.Errorf("configuration: %w", err)
+	}
+
+	err = c.validate()
+	if err != nil {
+		return nil, fmt.Errorf("configuration: %w", err)
+	}
+
+	b := newBuilder(&builderConfig{
+		envs:       envs,
+		conf:       c,
+		baseLogger: l,
+		errColl:    errColl,
+	})
+
+	// The signal handler of the builder must not take over the signals of the
+	// harness process.
+	signal.Reset()
+
+	// Some entities register their metrics with promauto under the fixed
+	// namespace; give every build its own default registry, so that the
+	// harness can build more than one service in one process.
+	reg := prometheus.NewRegistry()
+	prometheus.DefaultRegisterer = reg
+	prometheus.DefaultGatherer = reg
+
+	b.promRegisterer = reg
+	b.mtrcNamespace = ns
+
+	b.startGeoIP(ctx)
+
+	for _, step := range []struct {
+		f    func(ctx context.Context) (err error)
+		name string
+	}{
+		{name: "hash prefix filters", f: b.initHashPrefixFilters},
+		{name: "filter storage", f: b.initFilterStorage},
+		{name: "filtering groups", f: b.initFilteringGroups},
+		{name: "access", f: b.initAccess},
+		{name: "bindtodevice", f: b.initBindToDevice},
+		{name: "message constructor", f: b.initMsgConstructor},
+		{name: "tls manager", f: b.initTLSManager},
+		{name: "server groups", f: b.initServerGroups},
+	} {
+		err = step.f(ctx)
+		if err != nil {
+			return nil, fmt.Errorf("%s: %w", step.name, err)
+		}
+	}
+
+	b.billStat = deps.BillStat
+	b.profileDB = deps.ProfileDB
+	b.ruleStat = deps.RuleStat
+	b.dnsCheck = deps.DNSCheck
+
+	// The rate limiter without the allowlist updater, which needs Consul or
+	// the backend.
+	rlConf := c.RateLimit
+	allowlist := ratelimit.NewDynamicAllowlist(netutil.UnembedPrefixes(rlConf.Allowlist.List), nil)
+	b.connLimit = rlConf.ConnectionLimit.toInternal(b.baseLogger)
+	b.rateLimit = ratelimit.NewBackoff(rlConf.toInternal(allowlist))
+
+	err = b.waitGeoIP(ctx)
+	if err != nil {
+		return nil, err
+	}
+
+	err = b.initDNS(ctx)
+	if err != nil {
+		return nil, err
+	}
+
+	return &VerifC15Wired{
+		Svc:             b.dnsSvc,
+		Groups:          b.serverGroups,
+		ProfilesEnabled: b.profilesEnabled,
+	}, nil
+}
